@@ -8,7 +8,7 @@
 -/
 import Psa.Model.ReadSide
 import Psa.Generated.Facts
-import Psa.Tie.Facts
+import Psa.Tie.Facts.State
 namespace Psa.Props.C18
 open Psa Psa.Model Psa.Model.Read
 
